@@ -193,6 +193,11 @@ func (w *World) RunInstance(inst Instance, s *sym.Pool) (res *InstResult) {
 	}
 	for _, u := range x.Unwinds {
 		res.Unwinds = append(res.Unwinds, fmt.Sprintf("%s bound=%d", u.Pos, u.Bound))
+		if strings.Contains(u.Pos, "zz_vp_") {
+			// loops of the harness/specification layer must run to completion: cutting one silently changes the claim
+			res.Err = fmt.Errorf("a loop of the harness itself was cut at its bound (%s bound=%d)", u.Pos, u.Bound)
+			return
+		}
 	}
 	w.discharge(inst, x, s, res)
 	return
